@@ -212,3 +212,8 @@ MODELLED_GENERATORS = list(ALL_GENERATORS) if canon_opp.driver_has_opp() else []
 
 # stream framing units among them (C03 self-delimitation, C04 prefix rejection)
 FRAMING_MODELLED = {'MySQLRecord', 'TPKT', 'OpenVpnPacketWrapperTcp', 'SslRequest'} if MODELLED_GENERATORS else set()
+
+# classes whose last field is "the rest of the datagram": a composed message followed by more bytes parses to a
+# DIFFERENT value by design (theorem `ovpn_roundtrip_control`); the "whatever follows" clause of the round trip does not
+# apply to them (same situation as TlsApplicationDataMessage)
+REST_OF_BUFFER = {'OpenVpnPacketControlV1'}
